@@ -94,6 +94,23 @@ Theorem c13_sync_waits_async : forall ha ops x,
 Proof. exact gen_pending_iff_suspended. Qed.
 Print Assumptions c13_sync_waits_async.
 
+(* wire level: for every case whose first op is a well-formed Create (any further op lines, malformed ones included) the
+   oracle clauses "one line per op", "no Bad answer", "the visible log conforms to the specification of the script"
+   (argument items hidden for generator<T,void>) and "resumption counts in {0,1}" hold when the oracle decodes the
+   model's own encoded output - the encoding loses nothing the oracle needs.  (Not lifted to the wire level: the
+   value()-re-read clause and the closed-case clauses - RAII/frame balance after Destroy, no trailing Pending -
+   which are about closed cases only.) *)
+Theorem c13_wire_oracle_core : forall ha scw wops, Nat.even (length scw) = true ->
+  let wire := (0 :: scw) :: wops in
+  let ops := map (decode ha) wire in
+  let os := map dec_obs (gen_run ha wire) in
+  length ops = length os /\
+  no_bad os = true /\
+  conforms (visible ha (log_of ops os 0)) (visible ha (spec (decode_script ha scw) (call_args ops os))) 0 = true /\
+  forallb (fun o => (0 <=? o_cnt o) && (o_cnt o <=? 1)) os = true.
+Proof. exact gen_oracle_core. Qed.
+Print Assumptions c13_wire_oracle_core.
+
 (* non-vacuity: a body with RAII locals, a pending await and a throw, read through five different styles with the
    completion in the middle, then destroyed: reachable, conforming, balanced *)
 Example c13_nonvacuous :
